@@ -356,15 +356,6 @@ pub fn first_chunk(sched: &[Ev], len: usize) -> Option<usize> {
     None
 }
 
-/// D4 class: the first non-empty chunk is shorter than 3 bytes although the
-/// stream is longer than that chunk
-pub fn d4_class(sched: &[Ev], len: usize) -> bool {
-    match first_chunk(sched, len) {
-        Some(c) => c < 3 && c < len,
-        None => false,
-    }
-}
-
 /// offsets right after the low byte 0x0A of each line feed of a UTF-16LE+BOM
 /// stream: `data[..c]` ends inside a line feed (the inputs of the repaired
 /// finding D6), and a reader that has handed out `c` bytes is asked next for
@@ -462,7 +453,7 @@ fn work_dir() -> std::path::PathBuf {
     std::env::args().nth(5).map(std::path::PathBuf::from).unwrap_or_else(|| std::path::PathBuf::from("work/C08"))
 }
 
-pub const RULE: &str = "byte streams (bundled maps, generated .osu texts with Unicode content, mutated/noise streams; each in UTF-8, UTF-8+BOM, UTF-16LE+BOM, UTF-16BE+BOM) delivered through a BufRead that follows an explicit schedule: every fixed chunk size 1..64, random variable schedules, random Interrupted placements, first chunks of 1 and 2 bytes, explicit EOF reads; UTF-16LE streams cut right after the low byte of a line feed at every chunk size, with Interrupted at the read of the byte after a 0x0A; the implementation's line decoder output is compared with the model's read_all_lines; non-trivial = at least 3 bytes, at least 2 events and at least one complete line; distinct = distinct case lines";
+pub const RULE: &str = "byte streams (bundled maps, generated .osu texts with Unicode content, mutated/noise streams; each in UTF-8, UTF-8+BOM, UTF-16LE+BOM, UTF-16BE+BOM) delivered through a BufRead that follows an explicit schedule: every fixed chunk size 1..64, random variable schedules, random Interrupted placements, first chunks of 1 and 2 bytes, a byte order mark split at every position, every stream of 0..3 bytes over the BOM/line-feed alphabet byte by byte, explicit EOF reads; UTF-16LE streams cut right after the low byte of a line feed at every chunk size, with Interrupted at the read of the byte after a 0x0A; the implementation's line decoder output is compared with the model's read_all_lines; non-trivial = at least 3 bytes, at least 2 events and at least one complete line; distinct = distinct case lines";
 
 /// one correspondence case + oracle check of a scheduled decode against the
 /// one-buffer reference
@@ -470,13 +461,23 @@ fn one(out: &mut Out, name: &str, enc: usize, data: &[u8], sched: &[Ev], referen
     if with_model {
         let res = impl_lines(data, sched);
         let nontrivial = data.len() >= 3 && sched.len() >= 2 && data.contains(&b'\n');
+        // the lines themselves (a stream without section headers decodes to the default map
+        // whatever its lines are): the same as for the one-chunk delivery
+        if data.len() <= 4096 && !sched.is_empty() {
+            out.oracle_checks += 1;
+            let one_chunk = impl_lines(data, &[]);
+            if res != one_chunk {
+                out.fail("", &describe(name, enc, data.len(), sched), &format!("lines through the schedule differ from the lines of the one-chunk delivery: {} vs {}", &res[..res.len().min(160)], &one_chunk[..one_chunk.len().min(160)]));
+            }
+        }
         out.case(case_c08(data, sched), res, describe(name, enc, data.len(), sched), nontrivial);
     }
     let got = decode_sched(data, sched);
     out.oracle_checks += 1;
+    // no delivery is exempt: a first chunk of one or two bytes (the class of the repaired
+    // finding D4) counts like any other
     if let Some(d) = diff_results(reference, &got) {
-        let class = if d4_class(sched, data.len()) { "D4" } else { "" };
-        fail(out, class, &describe(name, enc, data.len(), sched), &format!("decode through the schedule vs from_bytes: {d}"));
+        out.fail("", &describe(name, enc, data.len(), sched), &format!("decode through the schedule vs from_bytes: {d}"));
     }
     match first_chunk(sched, data.len()) {
         Some(c) if c < 3 => out.count("schedule.first_chunk_lt3"),
@@ -535,8 +536,7 @@ fn other_paths(out: &mut Out, name: &str, enc: usize, data: &[u8], reference: &M
         let got = guarded(|| Beatmap::decode(BufReader::with_capacity(c, data)));
         out.oracle_checks += 1;
         if let Some(x) = diff_results(reference, &got) {
-            let class = if c < 3 && c < data.len() { "D4" } else { "" };
-            fail(out, class, &d(&format!("BufReader::with_capacity({c}, ..)")), &x);
+            out.fail("", &d(&format!("BufReader::with_capacity({c}, ..)")), &x);
         }
     }
     // a generic Read behind a BufReader, delivering in odd pieces
@@ -572,7 +572,8 @@ pub fn generate(tier: &str, seed: u64, out: &mut Out) {
     let all = texts(&mut r, if thorough { 300 } else { 40 });
     let mut file_no = 0;
 
-    // corpus: the D4 witnesses first
+    // corpus: the deliveries of the repaired finding D4 first (read_bom dropped every chunk
+    // shorter than three bytes)
     {
         let data = b"osu file format v14\n\n[Metadata]\nTitle:abc\n";
         let reference = decode_bytes(data);
@@ -585,6 +586,55 @@ pub fn generate(tier: &str, seed: u64, out: &mut Out) {
             let reference = decode_bytes(short);
             for sched in [vec![], vec![Ev::Chunk(1); 5], vec![Ev::Chunk(2); 3], vec![Ev::Chunk(3)], vec![Ev::Interrupted, Ev::Chunk(4)]] {
                 one(out, "corpus-short", 0, short, &sched, &reference, true);
+            }
+        }
+        // every stream of 0..3 bytes over the alphabet of the BOM sniffer and the line splitter,
+        // in one chunk, byte by byte, 2+1 and 1+2, with Interrupted
+        let alpha: [u8; 8] = [0xEF, 0xBB, 0xBF, 0xFF, 0xFE, b'a', b'\n', 0];
+        let mut shorts: Vec<Vec<u8>> = vec![vec![]];
+        for &a in &alpha {
+            shorts.push(vec![a]);
+            for &b in &alpha {
+                shorts.push(vec![a, b]);
+                for &c in &alpha {
+                    shorts.push(vec![a, b, c]);
+                }
+            }
+        }
+        for (i, short) in shorts.iter().enumerate() {
+            let reference = decode_bytes(short);
+            out.count("file.short_0_to_3_bytes");
+            let scheds: [Vec<Ev>; 4] = [vec![Ev::Chunk(1); 4], vec![Ev::Chunk(2), Ev::Chunk(1)], vec![Ev::Chunk(1), Ev::Interrupted, Ev::Chunk(2), Ev::Chunk(1)], vec![Ev::Interrupted, Ev::Chunk(1), Ev::Interrupted, Ev::Chunk(1), Ev::Chunk(5)]];
+            for (j, sched) in scheds.iter().enumerate() {
+                if thorough || short.len() < 3 || (i + j) % 2 == 0 {
+                    one(out, "short", 0, short, sched, &reference, true);
+                }
+            }
+        }
+        // a byte order mark split at every position (and a chunk straddling its end), in the
+        // three encodings that have one
+        let text = "osu file format v14\n\n[Metadata]\nTitle:\u{6f22}\u{1f600}abc\nArtist:x\n";
+        for enc in 1..4usize {
+            let data = encode_text(text, enc);
+            let reference = decode_bytes(&data);
+            let bom = if enc == 1 { 3 } else { 2 };
+            let splits: Vec<Vec<usize>> = if bom == 3 { vec![vec![1, 1, 1], vec![1, 2], vec![2, 1], vec![1, 1, 2], vec![2, 2], vec![1, 3], vec![1, 1, 40], vec![2, 40]] } else { vec![vec![1, 1], vec![1, 2], vec![1, 1, 1], vec![1, 3], vec![1, 40]] };
+            for sp in &splits {
+                for interrupts in [false, true] {
+                    let mut s: Vec<Ev> = vec![];
+                    for &n in sp {
+                        if interrupts {
+                            s.push(Ev::Interrupted);
+                        }
+                        s.push(Ev::Chunk(n));
+                    }
+                    for tail in [1usize, 7, 1000] {
+                        let mut s2 = s.clone();
+                        s2.extend(vec![Ev::Chunk(tail); data.len() / tail + 2]);
+                        one(out, "split-bom", enc, &data, &s2, &reference, true);
+                        out.count("schedule.bom_split");
+                    }
+                }
             }
         }
     }
@@ -607,7 +657,7 @@ pub fn generate(tier: &str, seed: u64, out: &mut Out) {
             // random variable schedules, with and without Interrupted
             let nrand = if big { 2 } else if thorough { 12 } else { 4 };
             for k in 0..nrand {
-                let first_min = if k % 4 == 3 { 1 } else { 3 };
+                let first_min = if k % 2 == 1 { 1 } else { 3 };
                 let s = rand_sched(&mut r, data.len(), first_min, k % 2 == 1);
                 one(out, name, enc, &data, &s, &reference, !big);
             }
@@ -710,7 +760,7 @@ pub fn generate(tier: &str, seed: u64, out: &mut Out) {
         out.count("file.mutated_or_noise");
         let c = r.range(1, 64) as usize;
         one(out, "mutated", 0, &data, &fixed_sched(c, data.len()), &reference, true);
-        let s = rand_sched(&mut r, data.len(), 3, true);
+        let s = rand_sched(&mut r, data.len(), if i % 2 == 0 { 1 } else { 3 }, true);
         one(out, "mutated", 0, &data, &s, &reference, true);
         if i % 5 == 0 {
             other_paths(out, "mutated", 0, &data, &reference, file_no);
